@@ -196,7 +196,7 @@ def judge(c: Campaign, spec: dict[str, Any], run: Run, desc: Any, extra=()) -> N
 
 def shard(prop: str, tier: str, seed: int, n: int) -> dict[str, Any]:
     c = Campaign(prop, tier, seed, LEVEL)
-    spec_st = st.one_of(st.sampled_from(list(core_corpus().values())), dag_spec(max_stages=5, allow=("multi", "fail", "cof", "poll", "skip", "transient")),
+    spec_st = st.one_of(st.sampled_from(list(core_corpus().values())), dag_spec(max_stages=5, allow=("multi", "fail", "cof", "poll", "skip", "transient", "disabled")),
                         loop_spec(max_j=2), syn_confluent_spec())
 
     @hseed(seed)
